@@ -57,6 +57,19 @@ fn run_t<T: SampleX>(c0: &Case) -> Outcome {
         o.fail(format!("getters:{}", kind.name()), format!("wrapper side {:?} vs direct {:?}", a.res.getters(), b.res.getters()));
         return o;
     }
+    // the allocation helpers are forwarded like everything else: same shapes through the wrapper
+    let shape = |v: Vec<Vec<T>>| -> Vec<(usize, usize)> { v.iter().map(|c| (c.len(), c.capacity())).collect() };
+    for filled in [true, false] {
+        let (ia, ib) = (shape(a.res.in_alloc(filled)), shape(b.res.in_alloc(filled)));
+        let (oa, ob) = (shape(a.res.out_alloc(filled)), shape(b.res.out_alloc(filled)));
+        if ia != ib || oa != ob {
+            o.fail(
+                format!("buffer-allocate:{}:{}", kind.name(), if ia != ib { "input" } else { "output" }),
+                format!("{}_buffer_allocate({}) gives (len, capacity) per channel {:?} on the wrapper side, {:?} directly", if ia != ib { "input" } else { "output" }, filled, if ia != ib { &ia } else { &oa }, if ia != ib { &ib } else { &ob }),
+            );
+            return o;
+        }
+    }
     let (mut ta, mut tb) = (new_trace::<T>(), new_trace::<T>());
     let flush = Op::Partial { path: Path::Alloc, frac: None, slack_out: 0, mask: None };
     let flush2 = Op::Partial { path: Path::Pib, frac: None, slack_out: 0, mask: None };
